@@ -234,8 +234,11 @@ func HandleBulkBody(postBody []byte, ctx *fasthttp.RequestCtx, rid uint64, myid 
 		}
 
 		if !success {
+			overallError = true
 			responsebody := make(map[string]interface{})
 			if maxRecordSizeExceeded {
+				// the size limit applies to this item only
+				maxRecordSizeExceeded = false
 				error_response := utils.BulkErrorResponse{
 					ErrorResponse: *utils.NewBulkErrorResponseInfo("request entity too large", "request_entity_exception"),
 				}
@@ -243,7 +246,6 @@ func HandleBulkBody(postBody []byte, ctx *fasthttp.RequestCtx, rid uint64, myid 
 				responsebody["status"] = 413
 				items[inCount-1] = responsebody
 			} else {
-				overallError = true
 				error_response := utils.BulkErrorResponse{
 					ErrorResponse: *utils.NewBulkErrorResponseInfo("indexing request failed", "mapper_parse_exception"),
 				}
